@@ -95,13 +95,13 @@ structure GenCfg where
   /-- `true` (original emitter): Loop renders a pointer-typed map key with `*k` without a nil test, so a nil
       pointer key panics when the iterator asks for keys (compiler.go:785-800). Repaired: the key text of a
       nil pointer key stays empty. -/
-  loopNilKeyPanics : Bool := true
+  loopNilKeyPanics : Bool := false   -- repaired in /repo (fix: Loop dereferenced a nil pointer map key)
 deriving Repr, Inhabited
 
 /-- The configuration that mirrors the tree as it is (flags flip when a `fix:` commit lands). -/
 def GenCfg.repo : GenCfg := {}
 /-- The tree as it was at the pinned commit (1c76ae3), before the `fix:` commits in /repo. -/
-def GenCfg.original : GenCfg := { GenCfg.repo with strAppendsOld := true, negIndexPanics := true, loopRootMapSkipped := true }
+def GenCfg.original : GenCfg := { GenCfg.repo with strAppendsOld := true, negIndexPanics := true, loopRootMapSkipped := true, loopNilKeyPanics := true }
 /-- Every listed defect repaired: the configuration the property theorems are proved for. -/
 def GenCfg.fixed : GenCfg where
   fallThroughAlways := false
